@@ -57,6 +57,8 @@ def _call(pendulum, name, z, tzobj, f, fold, rse, recv):
     y, mo, d, h, mi, s, us = f
     if isinstance(z, int):
         z = tzobj       # ints passed as tz= mean HOURS to pendulum; use the FixedTimezone object
+    if rse and (mi + s + d) % 2:
+        rse = 1         # the flag is read for its truth value: True and 1 alternate with the state
     if name == "datetime":
         return fold, lambda: pendulum.datetime(y, mo, d, h, mi, s, us, tz=z, fold=fold,
                                                raise_on_unknown_times=rse)
